@@ -729,4 +729,24 @@ example : RuleOk { name := "r".toList, mats := some [("$a".toList, ".x == '1'".t
     simp only [List.mem_cons, List.mem_singleton, List.not_mem_nil, or_false] at hi
     rcases hi with rfl | rfl <;> decide
 
+/-- reading back what was written, rule by rule -/
+def reload : List Rule → Except YErr (List Rule)
+  | [] => .ok []
+  | r :: rs => match deRule (serRule r) with
+    | .error e => .error e
+    | .ok r' => match reload rs with
+      | .error e => .error e
+      | .ok rs' => .ok (r' :: rs')
+
+/-- **dumping a compiler's rules and loading the text again gives the same rules**, hence (the compiler and the
+    engine being functions of the rules in load order) the same compiler state, the same engine and the same
+    answers: the metamorphic check every third scenario runs against the implementation -/
+theorem dump_reload (rs : List Rule) (h : ∀ r ∈ rs, RuleOk r) : reload rs = .ok rs := by
+  induction rs with
+  | nil => rfl
+  | cons r rs ih =>
+    unfold reload
+    rw [C20_roundtrip r (h r List.mem_cons_self), ih (fun r' hr' => h r' (List.mem_cons_of_mem _ hr'))]
+
+
 end Gene.Props.C20
